@@ -27,17 +27,30 @@ Print Assumptions C25_refuted.
        computed) the property holds at full strength;
    (2) unconditionally: the gc sibling of every removed target is outside Kept1 - the roots, their
        dependency closure, the tests of what the roots alone keep, and the closure of those - and no
-       removed source is a source of a Kept1 target.  (A target without gc_sibling label is its own sibling.) *)
+       removed source is a source of a Kept1 target.  (A target without gc_sibling label is its own sibling.)
+   (3) see below: publicDependencies = test_of exactly; tests behind hidden chains of any length stay. *)
 Definition C25_partial_statement : Prop :=
   (forall g a removed srcs, gc g a = Some (removed, srcs) -> defect_class g a = None ->
      safe_targets g a removed /\ safe_sources g a srcs)
   /\ (forall g a removed srcs, gc g a = Some (removed, srcs) ->
         (forall r, In r removed ->
            exists t, In t (g_targets g) /\ t_label t = r /\ ~ Kept1 g a (t_label (gc_sibling g t)))
-        /\ (forall f, In f srcs -> forall k t, Kept1 g a k -> find_target g k = Some t -> ~ In f (t_srcs t))).
+        /\ (forall f, In f srcs -> forall k t, Kept1 g a k -> find_target g k = Some t -> ~ In f (t_srcs t)))
+  (* (3) publicDependencies returns exactly what the test is a test of (test_of: looking through the hidden
+         sub-targets of the test's own rule at ANY depth and through nothing else), and therefore a test that
+         reaches a non-test_only target the roots keep through a chain hs - of any length - of hidden
+         sub-targets of its own rule is not proposed for removal, nor are its sources (default mode; the
+         test being its own gc sibling) *)
+  /\ (forall g f t ds, public_deps f g t = Some ds -> forall x, In x ds <-> test_of g t x)
+  /\ (forall g a removed srcs t hs x, gc g a = Some (removed, srcs) ->
+        In t (g_targets g) -> t_test t = true -> a_include_tests a = false ->
+        hidden_chain g t hs x -> Kept0 g a (t_label x) -> t_test_only x = false ->
+        (forall t', In t' (g_targets g) -> t_label t' = t_label t -> t_label (gc_sibling g t') = t_label t) ->
+        ~ In (t_label t) removed
+        /\ (forall t' f, find_target g (t_label t) = Some t' -> In f (t_srcs t') -> ~ In f srcs)).
 
 Theorem C25_partial : C25_partial_statement.
-Proof. exact (conj gc_safe_unless_defect gc_safe_one_round). Qed.
+Proof. exact (conj gc_safe_unless_defect (conj gc_safe_one_round (conj public_deps_exact chain_test_not_removed))). Qed.
 Print Assumptions C25_partial.
 
 (* Non-vacuity.  The graph of gc_test.go is outside every defect class, has targets kept and removed;
@@ -51,6 +64,24 @@ Example C25_nonvacuous_classes :
   defect_class w_sibling no_args = Some SiblingNotKept /\
   defect_class w_data no_args = Some DataOrDirectory.
 Proof. exact w_classes. Qed.
+
+(* (3) is not vacuous: //lib:k_test -> //lib:_k_test#main -> //lib:_k_test#lib -> //lib:k satisfies every
+   hypothesis with hs of length two, and only //junk:junk is removed ... *)
+Example C25_nonvacuous_chain :
+  gc w_chain no_args = Some ([lq "junk" "junk"], [s "junk/junk.go"]) /\
+  In c_ktest (g_targets w_chain) /\ t_test c_ktest = true /\ a_include_tests no_args = false /\
+  hidden_chain w_chain c_ktest [c_hmain; c_hlib] c_k /\ Kept0 w_chain no_args (t_label c_k) /\ t_test_only c_k = false /\
+  (forall t', In t' (g_targets w_chain) -> t_label t' = t_label c_ktest -> t_label (gc_sibling w_chain t') = t_label c_ktest).
+Proof. exact w_chain_ok. Qed.
+
+(* ... while a link that is a hidden sub-target of ANOTHER rule is not looked through: the test is a test of
+   that link only, it is removed, and nothing kept needs it *)
+Example C25_foreign_link_witness :
+  (gc w_foreign no_args = Some ([lq "lib" "k_test"; lq "lib" "other"], [s "lib/k_test.go"; s "lib/other.go"])
+   /\ defect_class w_foreign no_args = None
+   /\ option_map (map t_label) (public_deps (fuel_of w_foreign) w_foreign c_ktest) = Some [lq "lib" "_other#lib"])
+  /\ ~ Kept w_foreign no_args (lq "lib" "k_test").
+Proof. exact (conj w_foreign_gc w_foreign_not_kept). Qed.
 
 Example C25_sibling_witness :
   gc w_sibling no_args = Some ([lp "gen"; lp "gen_go"], []) /\ Kept w_sibling no_args (lp "gen_go").
